@@ -84,6 +84,12 @@ def run_once(mod, cfg, limit, choices, holder):
     flow.create(); flow.new_alloc(cfg.typ, cfg.rows, cfg.cols, 1)
     assert flow.set_frequencies([Fraction(10 ** 9)]) == 0
     assert flow.icall('vnacal_new_set_iteration_limit', [flow.vnp, limit]) == 0
+    # both tolerances are free positive symbols: the convergence decision must depend on each of them (checked over all paths by the worker)
+    import z3 as _z3
+    it.path.append(_z3.Real('tol_p') > 0); it.path.append(_z3.Real('tol_et') > 0)
+    assert flow.icall('vnacal_new_set_p_tolerance', [flow.vnp, Rat(_z3.Real('tol_p'))]) == 0
+    assert flow.icall('vnacal_new_set_et_tolerance', [flow.vnp, Rat(_z3.Real('tol_et'))]) == 0
+    npath0 = len(it.path)
     symcache = {}
     def val(spec, tag):
         if isinstance(spec, str): return cconst(cf.PRE[spec][1])
@@ -112,6 +118,10 @@ def run_once(mod, cfg, limit, choices, holder):
     flow.call('vnacal_new_free', [flow.vnp]); flow.call('vnacal_free', [flow.vcp])
     leaks = it.live_heap()
     check(not leaks, 'nothing stays allocated after vnacal_new_free + vnacal_free', len(leaks))
+    names = set()
+    for pc in it.__dict__.get('forked_conds', []):       # only two-sided decisions count: a condition that can go only one way decides nothing
+        for v in it._vars_of(pc): names.add(v.decl().name())
+    res['mentions'] = sorted(n for n in names if n in ('tol_p', 'tol_et'))
     return res
 
 
@@ -135,8 +145,23 @@ def worker(mod, job):
         key = re.sub(r'at [0-9.e+-]+ Hz', 'at <f> Hz', key)
         out['outcomes'][key] = out['outcomes'].get(key, 0) + 1
         out['max_linearisations'] = max(out['max_linearisations'], r.get('linearisations', 0))
+    seen = set(n for r in rs for n in r.get('mentions', []))
+    out['tolerances_in_decisions'] = sorted(seen)
+    for nm, what in (('tol_p', 'the parameter tolerance (vnacal_new_set_p_tolerance)'), ('tol_et', 'the error-term tolerance (vnacal_new_set_et_tolerance)')):
+        if nm in seen: out['queries'] += 1; out['unsat'] += 1
+        else: out['sat'].append({'q': 'tolerance: %s takes part in some convergence decision (a tolerance that no branch condition mentions cannot tighten the result)' % what,
+                                 'detail': 'none of the %d explored paths has a branch condition that depends on it' % len(rs)})
     out['funcs'] = sorted(funcs)
     return out
+
+
+def native_program_tolerance(cfg):
+    """p tolerance huge, error-term tolerance unreachable (1e-300), one iteration allowed: a solve that still reports convergence ignores the error-term tolerance"""
+    from props import calflow as cf
+    src = cf.native_program(cfg)
+    return src.replace('    CHECK(vnacal_new_solve(vnpA));', '    CHECK(vnacal_new_set_iteration_limit(vnpA, 1)); CHECK(vnacal_new_set_p_tolerance(vnpA, 1e30)); CHECK(vnacal_new_set_et_tolerance(vnpA, 1e-300));\n'
+                       '    { int rc = vnacal_new_solve(vnpA); if (rc == 0) { fprintf(stderr, "VF-ASSERT-FAIL: vnacal_new_solve reports convergence after one step although the error terms moved by more than the error-term tolerance 1e-300\\n"); vnacal_new_free(vnpA); vnacal_free(vcp); return 1; }\n'
+                       '      vnacal_new_free(vnpA); vnacal_free(vcp); printf("not converged, as the tolerance demands\\n"); return 0; }')
 
 
 def native_program(cfg, limit):
@@ -162,14 +187,19 @@ def run(tier, only=None):
         cfgs = {c.name: c for c in configs()}
         for r, j in zip(results, jobs):
             if r.get('error'): continue
-            whats = []
-            if r.get('fault'): whats.append('memory fault / abort in the symbolic run of the real code: ' + r['fault'])
-            for x in r.get('sat', []): whats.append('%s %s' % (x.get('q'), json.dumps(x.get('detail'), default=str)[:300]))
-            if not whats: continue
-            rd = os.path.join(core.VERIF, 'evidence', 'replay', 'C02_' + re.sub(r'\W+', '_', r['id']))
-            ok, how, outp = native.run_c(native_program(cfgs[j['cfg']], j['limit']), rd)
-            json.dump({'property': 'C02', 'job': j, 'what': whats[:10], 'native': how}, open(os.path.join(rd, 'cex.json'), 'w'), indent=1, default=str)
-            viol.append({'id': r['id'], 'what': ' ;; '.join(whats[:6]), 'replay': rd, 'confirmed': ok, 'how': how})
+            tol = [x for x in r.get('sat', []) if 'tolerance:' in str(x.get('q'))]
+            other = [x for x in r.get('sat', []) if 'tolerance:' not in str(x.get('q'))]
+            groups = []
+            if r.get('fault') or other:
+                w = (['memory fault / abort in the symbolic run of the real code: ' + r['fault']] if r.get('fault') else []) + ['%s %s' % (x.get('q'), json.dumps(x.get('detail'), default=str)[:300]) for x in other]
+                groups.append(('', w, native_program(cfgs[j['cfg']], j['limit'])))
+            for x in tol:       # each tolerance finding is its own violation (so that a listed known finding never hides another one)
+                groups.append(('_' + ('et' if 'error-term' in x['q'] else 'p') + 'tol', ['%s %s' % (x.get('q'), json.dumps(x.get('detail'), default=str)[:300])], native_program_tolerance(cfgs[j['cfg']])))
+            for sfx, whats, src in groups:
+                rd = os.path.join(core.VERIF, 'evidence', 'replay', 'C02_' + re.sub(r'\W+', '_', r['id']) + sfx)
+                ok, how, outp = native.run_c(src, rd)
+                json.dump({'property': 'C02', 'job': j, 'what': whats[:10], 'native': how}, open(os.path.join(rd, 'cex.json'), 'w'), indent=1, default=str)
+                viol.append({'id': r['id'], 'what': ' ;; '.join(whats[:6]), 'replay': rd, 'confirmed': ok, 'how': how})
         funcs = sorted(set(f for r in results for f in (r.get('funcs') or [])))
         meta = {'checker_cmd': 'clang-14 -O0 -emit-llvm (whole library) | llvm-link | opt -mem2reg | vf/irx.py (symbolic run of solve_auto with arbitrary-valued kernel hooks, all branch outcomes) | z3 (feasibility)',
                 'trusted_base': ['clang-14 front end', 'vf/irparse.py, irsym.py, irx.py', 'z3 (branch feasibility)', 'the kernel hooks (arbitrary values, full rank, non-zero determinant)', 'clang ASan/UBSan native build for replay'],
